@@ -105,3 +105,16 @@ func sortedKeys[V any](m map[string]V) []string {
 }
 
 func joinSp(xs ...string) string { return strings.Join(xs, " ") }
+
+// Perm returns a pseudo-random permutation of 0..n-1
+func (r *RNG) Perm(n int) []int {
+	p := make([]int, n)
+	for i := range p {
+		p[i] = i
+	}
+	for i := n - 1; i > 0; i-- {
+		j := r.Intn(i + 1)
+		p[i], p[j] = p[j], p[i]
+	}
+	return p
+}
